@@ -3,6 +3,9 @@ package e3
 import (
 	"bytes"
 	"fmt"
+	"go/ast"
+	"go/parser"
+	"go/printer"
 	"go/token"
 	"os"
 	"os/exec"
@@ -89,6 +92,8 @@ type Expansion struct {
 	// Batch: per combo, the outcome of ONE request that asks for all corpus files at once: names of output
 	// files that differ from the output of the single-file requests (or an error text).
 	Batch map[string][]string
+	// BatchCode: the subset of Batch whose declarations differ (imports and comments set aside).
+	BatchCode map[string][]string
 	// BatchFiles: how many files each batch request asked for.
 	BatchFiles map[string]int
 }
@@ -336,6 +341,7 @@ func Expand(combos []Combo, thorough bool) (*Expansion, error) {
 	// not depend on what else is in the request
 	ex.Batch = map[string][]string{}
 	ex.BatchFiles = map[string]int{}
+	ex.BatchCode = map[string][]string{}
 	for _, combo := range combos {
 		base := "csvcorpus/" + combo.String()
 		files := Corpus(base, thorough)
@@ -370,26 +376,34 @@ func Expand(combos []Combo, thorough bool) (*Expansion, error) {
 		switch {
 		case err != nil:
 			ex.Batch[combo.String()] = []string{"generator failed on the combined request: " + err.Error()}
+			ex.BatchCode[combo.String()] = ex.Batch[combo.String()]
 		case resp.Error != nil:
 			ex.Batch[combo.String()] = []string{"generator reports an error on the combined request: " + resp.GetError()}
+			ex.BatchCode[combo.String()] = ex.Batch[combo.String()]
 		default:
 			got := map[string]string{}
 			for _, rf := range resp.File {
 				got[rf.GetName()] += rf.GetContent()
 			}
-			var diff []string
+			var diff, codeDiff []string
 			for n, c := range want {
 				if got[n] != c {
 					diff = append(diff, n)
+					if declsOf(got[n]) != declsOf(c) {
+						codeDiff = append(codeDiff, n)
+					}
 				}
 			}
 			for n := range got {
 				if _, ok := want[n]; !ok {
 					diff = append(diff, n+" (extra)")
+					codeDiff = append(codeDiff, n+" (extra)")
 				}
 			}
 			sort.Strings(diff)
+			sort.Strings(codeDiff)
 			ex.Batch[combo.String()] = diff
+			ex.BatchCode[combo.String()] = codeDiff
 		}
 	}
 	// type-check everything that was generated
@@ -429,4 +443,24 @@ func Expand(combos []Combo, thorough bool) (*Expansion, error) {
 		}
 	}
 	return ex, nil
+}
+
+// declsOf renders the declarations of a Go source file without its imports and comments; a file that
+// does not parse is returned as it is.
+func declsOf(src string) string {
+	fset := token.NewFileSet()
+	f, err := parser.ParseFile(fset, "x.go", src, 0)
+	if err != nil {
+		return src
+	}
+	var sb strings.Builder
+	sb.WriteString("package " + f.Name.Name + "\n")
+	for _, d := range f.Decls {
+		if g, ok := d.(*ast.GenDecl); ok && g.Tok == token.IMPORT {
+			continue
+		}
+		_ = printer.Fprint(&sb, fset, d)
+		sb.WriteString("\n")
+	}
+	return sb.String()
 }
